@@ -44,6 +44,10 @@ def run(ctx):
     # a region drawn on pixel axes is evaluated through a shortcut that is only right for the dataset that owns those axes
     from .C04 import rule_f as _pixel_shortcut
     ctx.guard(_pixel_shortcut, BorrowedCtx(ctx, {'C04.f': 'C09.h'}), ix)
+    # on a categorical axis a drawn ellipse / rectangle is translated through its polygon: the angle shortcuts of to_polygon() and
+    # of the containment tests must be symmetries of the shape
+    from .C08 import rule_k as _periods
+    ctx.guard(_periods, BorrowedCtx(ctx, {'C08.k': 'C09.i'}), ix)
 
 
 # ---------------------------------------------------------------------------------------
